@@ -95,6 +95,15 @@ def rule_symmetry(repo, rule):
     W = sorted({loc for _s, loc, _v in writes})
     # the token
     ret = [n for n in ast.walk(ag.node) if isinstance(n, ast.Return) and n.value is not None]
+    # an exit that hands out no state (return None / bare return) opens a region whose exit can undo nothing: whatever the body
+    # changes - ignore_errors(True), a nested region left open by an exception - stays in force after the region
+    empty = [n for n in ast.walk(ag.node) if isinstance(n, ast.Return) and (n.value is None or norm(n.value) in ("None", "()", "False", "0"))]
+    if empty and len(ret) > len([e for e in empty if e.value is not None]):
+        rule.violation(ag.loc(empty[0]), ag.fq, "return %s" % (norm(empty[0].value) if empty[0].value is not None else ""),
+                       "add_guard can complete without handing out the saved state: a region entered on that path is never "
+                       "restored, so changes made inside it (error suppression, a nested region left open by an exception) "
+                       "outlive it", "save/none-token")
+        ret = [r for r in ret if r not in empty]
     # several exits may hand out the token, as long as it is the same one (`return bak` on the public and the secret path)
     if len(ret) > 1 and len({norm(r.value) for r in ret}) == 1 and isinstance(ret[0].value, ast.Name):
         ret = ret[:1]
@@ -167,6 +176,12 @@ def rule_symmetry(repo, rule):
             restored[loc] = direct_unpack[loc]
         else:
             restored[loc] = ("?", vt)
+    # every completing path of restore_guard performs the restoring writes (no early return that skips them)
+    rcfg = CFG(rg.node)
+    wn = {n for n in range(rcfg.n) if rcfg.stmt[n] is not None and any(rcfg.stmt[n] is s for s, _l, _v in rwrites)}
+    if wn and rcfg.exit in rcfg.reach_avoiding(rcfg.entry, wn):
+        rule.violation(rg.loc(), rg.fq, "a path to return avoids %s" % "; ".join(sorted({norm(rcfg.stmt[n])[:50] for n in wn})),
+                       "restore_guard can return without restoring the guard state", "restore/skipped")
     for loc in W:
         if loc not in saved_locs:
             continue
@@ -532,6 +547,22 @@ def rule_conjunction(repo, rule):
             rule.violation(ag.loc(s), ag.fq, norm(s),
                            "error suppression must be `_ignore_errors or %s.value == 0` (sticky, only or-ed)" % cond,
                            "conj/ignore")
+    if not by.get("_ignore_errors"):
+        # add_guard does not switch suppression on: then it must be DERIVED from the guard - ignore_errors() answers
+        # `<user flag> or not is_guard()` (or an equivalent disjunction) on every return
+        ie = repo.module(RT).functions.get("ignore_errors")
+        rets_ = [r_ for r_ in ast.walk(ie.node) if isinstance(r_, ast.Return) and r_.value is not None] if ie is not None else []
+
+        def _derived(e):
+            vals = e.values if isinstance(e, ast.BoolOp) and isinstance(e.op, ast.Or) else [e]
+            return any(norm(v_).replace(" ", "") in ("notis_guard()", "not(guardisNoneorguard.value==1)", "guardisnotNoneandguard.value!=1",
+                                                    "guardisnotNoneandguard.value==0") for v_ in vals) and any(norm(v_) == "_ignore_errors" for v_ in vals)
+        if rets_ and all(_derived(r_.value) for r_ in rets_):
+            rule.ok(ie.loc(rets_[0]), ie.fq, norm(rets_[0]), "suppression is derived: the user's flag or-ed with 'the active guard is not 1'")
+        else:
+            rule.violation(ag.loc(), ag.fq, "no write to _ignore_errors; ignore_errors() returns %s" % [norm(r_.value) for r_ in rets_][:2],
+                           "entering a region whose guard is 0 does not switch error suppression on (neither stored by add_guard "
+                           "nor derived by ignore_errors())", "conj/ignore")
     for s, v in by.get("LinComb.ONE", []):
         if norm(v) == "guard":
             rule.ok(ag.loc(s), ag.fq, norm(s), "constants are scaled by the new (conjoined) guard")
@@ -622,11 +653,11 @@ def check(repo, rep, tier):
     rep.trusted = ["statement CFG of sa/cfg.py (exception edge from every statement that can raise; finally bodies "
                    "instantiated per exit kind)"]
     rep.not_decided = ["client code outside /repo closing its blocks"]
-    r1 = rep.rule("R-C08-1", "save/restore symmetry of guard state (add_guard / restore_guard)", floor=6)
+    r1 = rep.rule("R-C08-1", "save/restore symmetry of guard state (add_guard / restore_guard)", floor=4)
     rule_symmetry(repo, r1)
     r2 = rep.rule("R-C08-2", "every add_guard is released on every exit path", floor=2)
     rule_release(repo, r2, include_clients=(tier == "thorough"))
-    r3 = rep.rule("R-C08-3", "no partial acquisition in add_guard", floor=3)
+    r3 = rep.rule("R-C08-3", "no partial acquisition in add_guard", floor=2)
     rule_partial(repo, r3)
     r4 = rep.rule("R-C08-4", "BranchContext releases first; exit() before enter()", floor=3)
     rule_release_first(repo, r4)
